@@ -7,6 +7,7 @@ import (
 
 	apb "github.com/google/fhir/go/proto/google/fhir/proto/annotations_go_proto"
 	dtpb "github.com/google/fhir/go/proto/google/fhir/proto/r4/core/datatypes_go_proto"
+	bcrpb "github.com/google/fhir/go/proto/google/fhir/proto/r4/core/resources/bundle_and_contained_resource_go_proto"
 	"github.com/iancoleman/strcase"
 	"github.com/verily-src/fhirpath-go/fhirpath"
 	"github.com/verily-src/fhirpath-go/fhirpath/compopts"
@@ -127,7 +128,7 @@ func (e *Expression) Add(res fhir.Resource, name string, value fhir.Base, option
 		return fmt.Errorf("%w: nil replacement value", ErrInvalidInput)
 	}
 
-	_, evalResult, err := e.evaluate(res, options...)
+	ctx, evalResult, err := e.evaluate(res, options...)
 	if err != nil {
 		return err
 	}
@@ -205,7 +206,7 @@ func (e *Expression) Add(res fhir.Resource, name string, value fhir.Base, option
 		update(value)
 	}
 
-	return nil
+	return repackContained(ctx)
 }
 
 // stringable is an interface to check for a string-valued FHIR type.
@@ -271,6 +272,24 @@ func (e *Expression) evaluate(res fhir.Resource, options ...fhirpath.EvaluateOpt
 	return config.Context, result, err
 }
 
+// repackContained writes contained resources back into the resource being
+// patched. Navigation enters a `contained` entry (a google.protobuf.Any) through
+// an unpacked copy, so a patch whose target lies inside a contained resource has
+// changed that copy; marshal every copy that no longer equals its source back
+// into the Any it was unpacked from.
+func repackContained(ctx *expr.Context) error {
+	for anyMsg, unpacked := range ctx.Contained {
+		current := &bcrpb.ContainedResource{}
+		if err := anyMsg.UnmarshalTo(current); err == nil && proto.Equal(current, unpacked) {
+			continue
+		}
+		if err := anyMsg.MarshalFrom(unpacked); err != nil {
+			return err
+		}
+	}
+	return nil
+}
+
 func (e *Expression) isSingletonOneof(msg proto.Message) bool {
 	message := msg.ProtoReflect()
 	descriptor := message.Descriptor()
@@ -320,7 +339,7 @@ func (e *Expression) Delete(res fhir.Resource, options ...fhirpath.EvaluateOptio
 		}
 	}
 
-	return nil
+	return repackContained(ctx)
 }
 
 func (e *Expression) tryDelete(collection system.Collection, toDelete any) error {
@@ -418,7 +437,7 @@ func (e *Expression) Insert(res fhir.Resource, value fhir.Base, index int, optio
 	}
 	reflect.Set(field, protoreflect.ValueOfList(list))
 
-	return nil
+	return repackContained(ctx)
 }
 
 // getFieldForCollection returns the FieldDescriptor that corresponds to the field
@@ -491,7 +510,7 @@ func (e *Expression) Replace(resource fhir.Resource, value fhir.Base, options ..
 		}
 	}
 
-	return nil
+	return repackContained(ctx)
 }
 
 // tryReplace attempts to first find the field that contains the element to replace, then replace it
